@@ -186,11 +186,11 @@ class SimTLSSocket(SimSocket, ssl.SSLSocket):      # type: ignore[misc]
                     return b''
                 raise
 
-    def read(self, len: int = 1024, buffer: Any = None) -> Any:    # noqa: A002
-        d = self.recv(len)
+    def read(self, nbytes: int = 1024, buffer: Any = None) -> Any:      # type: ignore[override]
+        d = self.recv(nbytes)
         if buffer is not None:
-            buffer[:len(d)] = d     # type: ignore[operator]
-            return len(d)           # type: ignore[operator]
+            buffer[:len(d)] = d
+            return len(d)
         return d
 
     def recv_into(self, buf: Any, nbytes: int = 0, flags: int = 0) -> int:
@@ -324,11 +324,12 @@ def fixtures(base: str) -> Dict[str, str]:
     os.makedirs(paths['warm_dir'], exist_ok=True)
     o = 'openssl'
     _run([o, 'genrsa', '-out', 'ca-key.pem', '2048'], d)
-    _run([o, 'req', '-new', '-x509', '-days', '3650', '-key', 'ca-key.pem', '-out', 'ca-cert.pem', '-subj', '/CN=sim proxy CA',
+    # fixed serial numbers: DER lengths (and with them TLS record sizes in the event log) must not vary between workers
+    _run([o, 'req', '-new', '-x509', '-days', '3650', '-set_serial', '4097', '-key', 'ca-key.pem', '-out', 'ca-cert.pem', '-subj', '/CN=sim proxy CA',
           '-addext', 'basicConstraints=critical,CA:TRUE', '-addext', 'keyUsage=critical,keyCertSign,cRLSign'], d)
     _run([o, 'genrsa', '-out', 'ca-signing-key.pem', '2048'], d)
     _run([o, 'genrsa', '-out', 'pub-key.pem', '2048'], d)
-    _run([o, 'req', '-new', '-x509', '-days', '3650', '-key', 'pub-key.pem', '-out', 'pub-cert.pem', '-subj', '/CN=sim public CA',
+    _run([o, 'req', '-new', '-x509', '-days', '3650', '-set_serial', '4098', '-key', 'pub-key.pem', '-out', 'pub-cert.pem', '-subj', '/CN=sim public CA',
           '-addext', 'basicConstraints=critical,CA:TRUE', '-addext', 'keyUsage=critical,keyCertSign,cRLSign'], d)
     _run([o, 'genrsa', '-out', 'origin-key.pem', '2048'], d)
     with open(os.path.join(d, 'DONE'), 'w') as f:
@@ -357,27 +358,16 @@ def origin_cert(paths: Dict[str, str], name: str, kind: str) -> Dict[str, str]:
     with open(ext, 'w') as f:
         f.write('subjectAltName=%s\nbasicConstraints=CA:FALSE\n' % san)
     if kind == 'selfsigned':
-        _run([o, 'req', '-new', '-x509', '-days', '365', '-key', 'origin-key.pem', '-out', crt, '-subj', '/CN=%s' % subject,
+        _run([o, 'req', '-new', '-x509', '-days', '365', '-set_serial', '4099', '-key', 'origin-key.pem', '-out', crt, '-subj', '/CN=%s' % subject,
               '-addext', 'subjectAltName=%s' % san], d)
         return {'cert': crt, 'key': key}
     csr = os.path.join(d, 'o-%s.csr' % tag)
     _run([o, 'req', '-new', '-key', 'origin-key.pem', '-out', csr, '-subj', '/CN=%s' % subject], d)
-    args = [o, 'x509', '-req', '-in', csr, '-CA', 'pub-cert.pem', '-CAkey', 'pub-key.pem', '-CAcreateserial', '-out', crt,
+    args = [o, 'x509', '-req', '-in', csr, '-CA', 'pub-cert.pem', '-CAkey', 'pub-key.pem', '-set_serial', '4100', '-out', crt,
             '-extfile', ext]
-    if kind == 'expired':
-        args += ['-not_before', '20200101000000Z', '-not_after', '20210101000000Z'] if _has_not_after() else ['-days', '-1']
-    else:
-        args += ['-days', '365']
+    # OpenSSL 3.0's x509 has no -not_after: a negative validity gives notAfter = yesterday
+    args += ['-days', '-1' if kind == 'expired' else '365']
     _run(args, d)
     return {'cert': crt, 'key': key}
 
 
-_NA: Optional[bool] = None
-
-
-def _has_not_after() -> bool:
-    global _NA
-    if _NA is None:
-        p = subprocess.run(['openssl', 'x509', '-help'], capture_output=True)
-        _NA = b'-not_after' in p.stderr or b'-not_after' in p.stdout
-    return _NA
